@@ -59,6 +59,15 @@ func c16run(ctx *vc.Ctx) {
 		{"join", "b", "member-join"}, {"fail", "c", "member-failed"}, {"prune", "c", "member-leave"},
 	}
 	c16backpressure(ctx, bound)
+	fb := 0
+	if ctx.Thorough() {
+		fb = 1
+	}
+	for _, sn := range []string{"flap", "rejoin", "prune"} {
+		for _, snap := range []bool{false, true} {
+			c16exploreF(ctx, sn, scripts[sn], snap, true, fb, true)
+		}
+	}
 	for _, sn := range []string{"flap", "rejoin", "prune"} {
 		for _, snap := range []bool{false, true} {
 			for _, coal := range []bool{false, true} {
@@ -69,11 +78,21 @@ func c16run(ctx *vc.Ctx) {
 }
 
 func c16explore(ctx *vc.Ctx, sname string, script []c16step, snap, coal bool, bound int) {
+	c16exploreF(ctx, sname, script, snap, coal, bound, false)
+}
+
+// flushes: after every transition the producer either goes on at once or lets 4 s of virtual time
+// pass, which flushes the coalescers; every placement of these pauses is explored (they cost no
+// deviation), so the batching stage sees the transitions split across batches in every way.
+func c16exploreF(ctx *vc.Ctx, sname string, script []c16step, snap, coal bool, bound int, flushes bool) {
 	var got map[string][]string
 	var ref map[string][]string
 	var status map[string]string
 	var users int
 	name := fmt.Sprintf("%s/snapshot=%v/coalesce=%v", sname, snap, coal)
+	if flushes {
+		name += "/every-flush-placement"
+	}
 	body := func() {
 		vsched.Branching(false)
 		got, ref, status, users = map[string][]string{}, map[string][]string{}, nil, 0
@@ -101,7 +120,10 @@ func c16explore(ctx *vc.Ctx, sname string, script []c16step, snap, coal bool, bo
 		idx := map[string]int{"b": 1, "c": 2}
 		lt := uint64(10)
 		vsched.SetHorizon(vsched.Elapsed() + int64(30*time.Second))
-		if coal {
+		if flushes {
+			vsched.SetHorizon(vsched.Elapsed() + int64(120*time.Second))
+		}
+		if coal && !flushes {
 			vsched.TimerChoice(true)
 		}
 		vsched.Branching(true)
@@ -130,6 +152,9 @@ func c16explore(ctx *vc.Ctx, sname string, script []c16step, snap, coal bool, bo
 				}
 				if st.op == "prune" {
 					ref[st.who] = append(ref[st.who], "member-reap")
+				}
+				if flushes && vsched.Choose(2, "pause-after-transition") == 1 {
+					vsched.Sleep(int64(4*time.Second), "producer-pause")
 				}
 			}
 		})
@@ -183,7 +208,7 @@ func c16explore(ctx *vc.Ctx, sname string, script []c16step, snap, coal bool, bo
 		}
 		return strings.Join(out, " "), "", ""
 	}
-	ctx.Explore(vc.ExploreOpts{Name: name, Bound: bound, MaxSteps: 100000}, body, check)
+	ctx.Explore(vc.ExploreOpts{Name: name, Bound: bound, MaxSteps: 100000, EnvFree: flushes}, body, check)
 }
 
 // c16backpressure drives the real Snapshotter stage alone with a 1-slot downstream
